@@ -256,3 +256,19 @@ def bounded_masks(p):
     ok = got[0] == 'ok' and set(got[1]) == set(exp) and all(mc.close(got[1][k], exp[k]) for k in exp)
     S.check(ok, dict(mode='pipeline masks', replace=replace), f'intra-example masks (replace={replace}): {got}; expected {exp}', cls=f'pipeline-{replace}')
   return S.result()
+
+
+def replay_apply_mask(p):
+  """Replays a counterexample of an apply_mask obligation: items are distinct objects 0..n-1."""
+  w = p['witness']
+  masks, n = w.get('masks'), w.get('n_items')
+  if not isinstance(masks, list) or not isinstance(n, int) or not 0 <= n <= 64 or not all(isinstance(m, bool) for m in masks):
+    return dict(violated=False, detail='witness outside the replayable domain')
+  items = [('row', i) for i in range(n)]
+  if 'replace' in w:
+    got = expect(lambda: list(tree.apply_mask(items, masks=list(masks), replace_false_with=w['replace'])))
+    ref = ('ok', [x if m else w['replace'] for x, m in zip(items, masks)]) if len(masks) == n else ('raise', 'ValueError')
+  else:
+    got = expect(lambda: list(tree.apply_mask(items, masks=list(masks))))
+    ref = ('ok', [x for x, m in zip(items, masks) if m]) if len(masks) == n else ('raise', 'ValueError')
+  return dict(violated=got != ref, detail=f'apply_mask({n} items, masks={masks}) = {got}; reference {ref}')
